@@ -5,7 +5,8 @@
 From Coq Require Import List NArith ZArith Bool.
 Import ListNotations.
 From GMS Require Import Codec.C28Date Codec.C28DateProofs Codec.C28Wire Codec.C28WireProofs Codec.C28WireProofs2
-  Codec.C28Str Codec.C28Bin Codec.C28BinProofs Codec.C28BinProofs2.
+  Codec.C28Str Codec.C28Bin Codec.C28BinProofs Codec.C28BinProofs2 Codec.C28Meta Codec.C28MetaProofs.
+From GMS Require Codec.C28Json Codec.C28JsonWire.
 Open Scope Z_scope.
 
 (* strconv.AppendInt followed by strconv.ParseInt is the identity on every integer (no width bound) *)
@@ -154,13 +155,37 @@ Theorem C28_enum_set_text_len_le_announced :
 Proof. split; [exact enum_text_len|exact set_text_len]. Qed.
 Print Assumptions C28_enum_set_text_len_le_announced.
 
-(* VARCHAR(n) / VARBINARY(n) / TEXT (utf8mb4): the text is the stored byte string, Convert accepts it again, and it
-   fits chars * 4 (VARCHAR), n (VARBINARY), 65535 * 4 (TEXT) *)
+(* VARCHAR(n) / CHAR(n) / VARBINARY(n) / BINARY(n) / TEXT (utf8mb4): a stored value (a fixpoint of Convert) is sent as
+   it is, Convert accepts it again unchanged, and it fits chars * 4 (VARCHAR, CHAR), n (VARBINARY, BINARY), 65535 * 4
+   (TEXT).  CHAR values keep their trailing spaces. *)
 Theorem C28_string_text_roundtrip :
   forall t s, str_convert_text t s = Some s ->
-    str_convert_text t (str_sql_text t s) = Some s /\ (length (str_sql_text t s) <= str_announced t)%nat.
+    str_sql_text t s = Some s /\ str_convert_text t s = Some s /\ (length s <= str_announced t)%nat.
 Proof. exact str_text_roundtrip. Qed.
 Print Assumptions C28_string_text_roundtrip.
+
+(* ... and whatever Convert accepts, what it stores is such a fixpoint: BINARY(n) is right-padded with 0x00 to exactly
+   n bytes, once *)
+Theorem C28_string_store_is_fixpoint :
+  (forall t r s, str_convert_text t r = Some s -> str_convert_text t s = Some s) /\
+  (forall n r s, str_convert_text (Binary n) r = Some s -> length s = n) /\
+  (forall n r, (length r <= n)%nat -> str_convert_text (Binary n) r = Some (r ++ repeat 0%N (n - length r))).
+Proof.
+  split; [exact str_convert_storable|]. split; [exact binary_stored_length|].
+  intros n r H. cbn [str_convert_text]. apply Nat.leb_le in H. now rewrite H.
+Qed.
+Print Assumptions C28_string_store_is_fixpoint.
+
+(* JSON columns (copied C32 document model): the text is read back as the canonical form of the document, hence as the
+   document itself for integer and string documents *)
+Theorem C28_json_text_roundtrip :
+  (forall j, C28JsonWire.json_convert_text (C28JsonWire.json_sql_text j) = Some (C28Json.canon j)) /\
+  (forall z, C28JsonWire.json_convert_text (C28JsonWire.json_sql_text (C28Json.JInt z)) = Some (C28Json.JInt z)) /\
+  (forall s, C28JsonWire.json_convert_text (C28JsonWire.json_sql_text (C28Json.JStr s)) = Some (C28Json.JStr s)).
+Proof.
+  split; [exact C28JsonWire.json_text_roundtrip|]. split; [exact C28JsonWire.json_int_text_roundtrip|exact C28JsonWire.json_string_text_roundtrip].
+Qed.
+Print Assumptions C28_json_text_roundtrip.
 
 (* binary protocol (vitess val2MySQL applied to the text, then a client's reader): integers of every type *)
 Theorem C28_int_binary_roundtrip :
@@ -196,6 +221,56 @@ Theorem C28_time_binary_roundtrip :
     exists b, time_bin (time_sql_text x) = Some b /\ time_bin_decode b = Some x /\ length b = 13%nat.
 Proof. exact time_binary_roundtrip. Qed.
 Print Assumptions C28_time_binary_roundtrip.
+
+(* binary rows: the NULL bitmap ((columns + 9) / 8 bytes, offset 2) marks exactly the NULL columns *)
+Theorem C28_null_bitmap_marks_exactly_nulls :
+  forall nulls i, (i < length nulls)%nat ->
+    bitmap_is_null (null_bitmap nulls) i = nth i nulls false /\ length (null_bitmap nulls) = bitmap_len (length nulls).
+Proof. exact null_bitmap_marks_exactly. Qed.
+Print Assumptions C28_null_bitmap_marks_exactly_nulls.
+
+(* YEAR (16 bit integer) and the kinds sent as length-encoded strings of their text: DECIMAL, BIT, ENUM, SET *)
+Theorem C28_year_binary_roundtrip :
+  forall y, 1901 <= y <= 2155 ->
+    exists b, year_bin (year_sql_text y) = Some b /\ int_bin_decode I16 b = y /\ length b = 2%nat.
+Proof. exact year_binary_roundtrip. Qed.
+Print Assumptions C28_year_binary_roundtrip.
+
+Theorem C28_lenenc_kinds_binary_roundtrip :
+  (forall col p s d, 0 <= s -> 0 <= dcoef d /\ - s <= dexp d /\ Z.abs (scaled s d) < 10 ^ p ->
+     Z.of_nat (length (dec_sql_text col s d)) < 2 ^ 64 ->
+     exists t d', lenenc_decode (lenenc_str (dec_sql_text col s d)) = Some t /\ dec_convert_text col p s t = Some d' /\
+                  dec_eqv d' d = true) /\
+  (forall n v, 1 <= n <= 64 -> 0 <= v < 2 ^ n ->
+     exists t, lenenc_decode (lenenc_str (bit_sql_text n v)) = Some t /\ bit_convert_text n t = Some v) /\
+  (forall names i, NoDup names -> 1 <= i <= Z.of_nat (length names) -> Z.of_nat (length (enum_sql_text names i)) < 2 ^ 64 ->
+     exists t, lenenc_decode (lenenc_str (enum_sql_text names i)) = Some t /\ enum_convert_text names t = Some i) /\
+  (forall names b, NoDup names -> Forall (fun n => n <> [] /\ no_comma n) names -> 0 <= b < 2 ^ Z.of_nat (length names) ->
+     Z.of_nat (length (set_sql_text names b)) < 2 ^ 64 ->
+     exists t, lenenc_decode (lenenc_str (set_sql_text names b)) = Some t /\ set_convert_text names t = Some b).
+Proof. exact lenenc_kinds_binary_roundtrip. Qed.
+Print Assumptions C28_lenenc_kinds_binary_roundtrip.
+
+(* column definitions: the decimals field announces the number of fraction digits for DECIMAL and DATETIME ... *)
+Theorem C28_meta_decimals_announce_fraction :
+  forall c, (forall n, c <> TTimestamp n) -> c <> TTime -> meta_decimals c = fraction_digits c.
+Proof. exact meta_decimals_announce_fraction. Qed.
+Print Assumptions C28_meta_decimals_announce_fraction.
+
+(* ... but not for TIMESTAMP(n) and TIME: values carry 6 fraction digits, 0 are announced (clients using the binary
+   protocol format the value with the announced number of digits and lose the fraction) *)
+Theorem C28_meta_decimals_timestamp_time_refuted :
+  (exists c, fraction_digits c = 6 /\ meta_decimals c = 0) /\ (fraction_digits TTime = 6 /\ meta_decimals TTime = 0).
+Proof. split; [exact meta_decimals_refuted|exact meta_decimals_time_refuted]. Qed.
+Print Assumptions C28_meta_decimals_timestamp_time_refuted.
+
+(* flags: UNSIGNED is announced exactly for the unsigned integer types, NOT_NULL exactly for NOT NULL columns, whatever
+   the other attributes (vitess replaces its type-derived flags by the engine's as soon as one of those is set) *)
+Theorem C28_meta_flags :
+  (forall t nn pk ai, Z.testbit (meta_flags (TInt t) nn pk ai) 5 = negb (ity_signed t)) /\
+  (forall c nn pk ai, Z.testbit (meta_flags c nn pk ai) 0 = nn).
+Proof. split; [exact meta_unsigned_flag|exact meta_not_null_flag]. Qed.
+Print Assumptions C28_meta_flags.
 
 (* non-vacuity: the hypotheses are satisfiable and the texts are the expected ones *)
 Example C28_nonvacuous :
